@@ -445,9 +445,40 @@ func compositeFields(e ast.Expr) (string, map[string]string) {
 }
 
 type bhStmt struct {
-	kind             string // witness retFalseIf setCur setIdx other
-	text             string
-	usesCur, usesIdx bool
+	kind string // witness retFalseIf setCur setIdx other
+	text string // for kind other
+	e    *irE   // witness / setCur / setIdx
+	c    *irC   // retFalseIf
+}
+
+func (s bhStmt) usesCur() bool { return s.e.mentions("cur") || s.c.mentions("cur") }
+
+func (s bhStmt) render() string {
+	switch s.kind {
+	case "witness", "setCur", "setIdx":
+		return "." + s.kind + " " + s.e.String()
+	case "retFalseIf":
+		return ".retFalseIf " + s.c.String()
+	}
+	return s.text
+}
+
+// substE / substC replace the atom `from` by the atom `to`.
+func substE(e *irE, from, to string) *irE {
+	if e == nil {
+		return nil
+	}
+	if e.op == from {
+		return &irE{op: to}
+	}
+	return &irE{op: e.op, a: substE(e.a, from, to), b: substE(e.b, from, to), n: e.n}
+}
+
+func substC(c *irC, from, to string) *irC {
+	if c == nil {
+		return nil
+	}
+	return &irC{op: c.op, ea: substE(c.ea, from, to), eb: substE(c.eb, from, to), ca: substC(c.ca, from, to), cb: substC(c.cb, from, to)}
 }
 
 // splitOr: `if A || B { return false }` is `if A { return false }; if B { return false }`.
@@ -486,7 +517,7 @@ func (c *bhCtx) translate(fd *ast.FuncDecl) ([]string, error) {
 				if err != nil {
 					return nil, err
 				}
-				emit("witness", ".witness "+e.String())
+				out = append(out, bhStmt{kind: "witness", e: e})
 				continue
 			}
 			return nil, fmt.Errorf("unsupported statement %q", src)
@@ -521,13 +552,13 @@ func (c *bhCtx) translate(fd *ast.FuncDecl) ([]string, error) {
 				}
 				switch {
 				case lhs == c.idxVar:
-					out = append(out, bhStmt{kind: "setIdx", text: ".setIdx " + e.String(), usesCur: e.mentions("cur")})
+					out = append(out, bhStmt{kind: "setIdx", e: e})
 				case e.mentions("clockTime") || e.mentions("cur") || e.mentions("seenLTime"):
 					if c.curVar != "" {
 						return nil, fmt.Errorf("a second clock-dependent local %q", lhs)
 					}
 					c.curVar = lhs
-					emit("setCur", ".setCur "+e.String())
+					out = append(out, bhStmt{kind: "setCur", e: e})
 				default:
 					c.env[lhs] = e // a pure local: inlined
 				}
@@ -623,8 +654,7 @@ func (c *bhCtx) translate(fd *ast.FuncDecl) ([]string, error) {
 					return nil, err
 				}
 				for _, part := range splitOr(normC(cd)) {
-					out = append(out, bhStmt{kind: "retFalseIf", text: ".retFalseIf " + part.String(),
-						usesCur: part.mentions("cur"), usesIdx: false})
+					out = append(out, bhStmt{kind: "retFalseIf", c: part})
 				}
 			default:
 				return nil, fmt.Errorf("unsupported if %q", cs)
@@ -644,16 +674,57 @@ func (c *bhCtx) translate(fd *ast.FuncDecl) ([]string, error) {
 			return nil, fmt.Errorf("unsupported statement %q", src)
 		}
 	}
-	// canonical order: the pure definitions of curTime / idx move up past the guards
-	// (which change nothing) to just after the witness; curTime before idx.
+	// canonical form, step 1: the clock is read once. When every witness precedes every
+	// read of the clock, `clock.Time()` in a guard or in the index is the same value as a
+	// local defined as `clock.Time()` right after the last witness: introduce that local
+	// (if the source has none) and use it everywhere.
+	lastWitness, firstRead, hasPlainCur := -1, -1, false
+	for i, st := range out {
+		switch {
+		case st.kind == "witness":
+			lastWitness = i
+		case st.kind == "setCur":
+			if st.e.String() == ".clockTime" {
+				hasPlainCur = true
+			}
+			if firstRead < 0 {
+				firstRead = i
+			}
+		case st.e.mentions("clockTime") || st.c.mentions("clockTime"):
+			if firstRead < 0 {
+				firstRead = i
+			}
+		}
+	}
+	if firstRead > lastWitness && (hasPlainCur || c.curVar == "") {
+		var o2 []bhStmt
+		for i, st := range out {
+			if st.kind == "setCur" && st.e.String() == ".clockTime" {
+				continue
+			}
+			if st.kind != "setCur" {
+				st.e, st.c = substE(st.e, "clockTime", "cur"), substC(st.c, "clockTime", "cur")
+			}
+			o2 = append(o2, st)
+			if i == lastWitness {
+				o2 = append(o2, bhStmt{kind: "setCur", e: &irE{op: "clockTime"}})
+			}
+		}
+		if lastWitness < 0 {
+			o2 = append([]bhStmt{{kind: "setCur", e: &irE{op: "clockTime"}}}, o2...)
+		}
+		out = o2
+	}
+	// step 2: the pure definitions of curTime / idx move up past the guards (which change
+	// nothing) to just after the witness; curTime before idx.
 	for i := range out {
 		if out[i].kind != "setCur" && out[i].kind != "setIdx" {
 			continue
 		}
 		for j := i; j > 0; j-- {
 			p := out[j-1]
-			up := p.kind == "retFalseIf" && !(out[j].kind == "setCur" && p.usesCur)
-			if out[j].kind == "setCur" && p.kind == "setIdx" && !p.usesCur {
+			up := p.kind == "retFalseIf" && !(out[j].kind == "setCur" && p.usesCur())
+			if out[j].kind == "setCur" && p.kind == "setIdx" && !p.usesCur() {
 				up = true
 			}
 			if !up {
@@ -664,7 +735,7 @@ func (c *bhCtx) translate(fd *ast.FuncDecl) ([]string, error) {
 	}
 	var txt []string
 	for _, s := range out {
-		txt = append(txt, s.text)
+		txt = append(txt, s.render())
 	}
 	return txt, nil
 }
